@@ -158,6 +158,29 @@ Theorem C16_inplace_filter_refuted : exists bs,
 Proof. exact inplace_filter_refuted. Qed.
 Print Assumptions C16_inplace_filter_refuted.
 
+(* one endpoint serving a history: whatever shadow calls are in flight (hung, any number),
+   a client call gets what the endpoint without shadow backends gives - for every history
+   length, shadow calls ending at any point or never *)
+Theorem C16_serve_independent : forall R (F : list backend -> ctx -> request -> R) bs inflight tk now c r,
+  bs <> [] ->
+  fst (serve F bs inflight tk now c r) = Some (F (filter (fun b => negb (snd (is_shadow_backend b))) bs) c r).
+Proof. exact @serve_independent. Qed.
+Print Assumptions C16_serve_independent.
+
+Theorem C16_history_independent : forall R (F : list backend -> ctx -> request -> R) bs es,
+  bs <> [] -> forall inflight,
+  history F bs inflight es = calls_of F (filter (fun b => negb (snd (is_shadow_backend b))) bs) es.
+Proof. exact @history_independent. Qed.
+Print Assumptions C16_history_independent.
+
+(* whereas a bound on the shadow calls in flight that is acquired on the caller's path makes
+   the client call wait (no result) once [cap] shadow calls are pending, for every cap *)
+Theorem C16_bounded_inflight_refuted : forall R cap (F : list backend -> ctx -> request -> R) bs reg sh t inflight tk now c r,
+  shadow_new bs = BShadowed reg sh t -> cap <= List.length inflight ->
+  fst (serve_bounded cap F bs inflight tk now c r) = None.
+Proof. exact @bounded_blocks. Qed.
+Print Assumptions C16_bounded_inflight_refuted.
+
 (* ---- detached and bounded ---- *)
 (* whatever cancel functions are called outside (every frame of the client's context, in any
    order, at any time), the shadow context is not done before its own deadline *)
